@@ -52,6 +52,11 @@ def generate(rseed, tier='quick'):
       continue
     for _ in range(r.randint(1, 2)):
       datasets.append(modelgen.draw_dataset_desc(r, mi, r.randint(1, 4)))
+    if r.random() < 0.15:
+      # test data with NaN / Inf entries: legal float32 inputs; used like any other dataset
+      d = modelgen.draw_dataset_desc(r, mi, r.randint(1, 2))
+      d['dist'] = 'nonfinite'
+      datasets.append(d)
   pools = [editgen.regex_pool(r, s, escape=models[i]['kind'] == 'corpus') for i, s in enumerate(specs)]
   for i, m in enumerate(models):
     if m['kind'] == 'gen2':
